@@ -209,7 +209,7 @@ func visitInstr(fr *frame, instr ssa.Instruction) continuation {
 		fr.env[instr] = fr.get(instr.Tuple).(tuple)[instr.Index]
 
 	case *ssa.Slice:
-		fr.env[instr] = fr.slice(fr.get(instr.X), fr.get(instr.Low), fr.get(instr.High), fr.get(instr.Max))
+		fr.env[instr] = fr.slice(instr.X.Type(), fr.get(instr.X), fr.get(instr.Low), fr.get(instr.High), fr.get(instr.Max))
 
 	case *ssa.Return:
 		switch len(instr.Results) {
@@ -280,7 +280,17 @@ func visitInstr(fr *frame, instr ssa.Instruction) continuation {
 			// local
 			addr = fr.env[instr].(*value)
 		}
-		*addr = zero(deref(instr.Type()))
+		if os.Getenv("GOSYM_DEBUG") == "alloc" {
+			if at, ok := deref(instr.Type()).Underlying().(*types.Array); ok && at.Len() > 1000 {
+				fmt.Fprintf(os.Stderr, "big alloc %s in %s\n", at, fr.fn)
+			}
+		}
+		if at, ok := deref(instr.Type()).Underlying().(*types.Array); ok && at.Len() > 256 {
+			// big arrays are zeroed lazily, element by element, on first access
+			*addr = make(array, at.Len())
+		} else {
+			*addr = zero(deref(instr.Type()))
+		}
 
 	case *ssa.MakeSlice:
 		c := fr.concInt(fr.get(instr.Cap))
@@ -288,9 +298,10 @@ func visitInstr(fr *frame, instr ssa.Instruction) continuation {
 		if l < 0 || c < l || c > 1<<26 {
 			in.rtPanic("makeslice: len out of range")
 		}
+		// elements beyond len are materialised lazily (see frame.slice)
 		slice := make([]value, c)
 		tElt := instr.Type().Underlying().(*types.Slice).Elem()
-		for i := range slice {
+		for i := int64(0); i < l; i++ {
 			slice[i] = zero(tElt)
 		}
 		fr.env[instr] = slice[:l]
@@ -445,17 +456,28 @@ func (fr *frame) elemAddr(base []value, idx value, idxType types.Type, elemType 
 	if it, ok := idx.(*Term); ok {
 		it = fr.boundsCheck(it, idxType, len(base))
 		if isScalarType(elemType) && len(base) <= 512 {
+			for i := range base {
+				if base[i] == nil {
+					base[i] = zero(elemType)
+				}
+			}
 			if len(base) == 1 {
 				return &base[0]
 			}
 			return symptr{base: base, idx: it}
 		}
 		k := in.concretize(fr, it)
+		if base[k] == nil {
+			base[k] = zero(elemType)
+		}
 		return &base[k]
 	}
 	k := asInt64(idx)
 	if k < 0 || k >= int64(len(base)) {
 		in.rtPanic(fmt.Sprintf("index out of range [%d] with length %d", k, len(base)))
+	}
+	if base[k] == nil {
+		base[k] = zero(elemType)
 	}
 	return &base[k]
 }
